@@ -787,7 +787,7 @@ def run(ctx):
         else:
             head = REQ + unfold_tactic()
             # shards balanced by weight
-            nshard = 12
+            nshard = max(12, -(-len(G.items) // 350))  # at most ~350 goals per file; 12 compile in parallel
             order = sorted(range(len(G.items)), key=lambda t: -G.items[t][2])
             shards, loads = [[] for _ in range(nshard)], [0] * nshard
             for t in order:
